@@ -196,7 +196,38 @@ def compare_views(a, b, ignore_dst):
     return None
 
 
+class WallClock(BaseException):
+    pass
+
+
 def work(args):
+    """one twin run under a wall-clock watchdog: the simulation's time is virtual, so a read that is not processed in bounded work
+    (a decode loop that makes no progress) stops the whole event loop without any virtual time passing"""
+    import signal, traceback as tb
+    def on_alarm(sig, frm):
+        where = "".join(tb.format_stack(frm, limit=4))[-700:]
+        stuck.append("the event loop was stuck for %d s of wall time inside\n%s" % (WATCHDOG_S, where))
+        raise WallClock(stuck[-1])
+    stuck = []
+    old = signal.signal(signal.SIGALRM, on_alarm)
+    signal.alarm(WATCHDOG_S)
+    try:
+        res = work_inner(args)
+        if stuck:
+            res[4].insert(0, ("blocked", "a read was not processed in work bounded by its size: %s" % stuck[0]))
+        return res
+    except WallClock as e:
+        idx, specd, seed, atk = args
+        return idx, specd, seed, atk, [("blocked", "a read was not processed in work bounded by its size: %s" % e)], None, {}, None
+    finally:
+        signal.alarm(0)
+        signal.signal(signal.SIGALRM, old)
+
+
+WATCHDOG_S = 150
+
+
+def work_inner(args):
     idx, specd, seed, atk = args
     try:
         spec = ms.Spec(**specd)
